@@ -12,6 +12,7 @@ RULE = ("seeded CP model specs per stratum (natively supported shapes, full oper
 ASSUMPTIONS = ["<= 5 variables, domain product <= 4096", "circuit on a single node excluded (self-loop convention not fixed)",
                "no_overlap pairs with a zero duration are judged leniently (either convention accepted)",
                "anonymous variables are existentially quantified: the returned named assignment must be extendable"]
+QUICK_SCALE = 3  # quick-tier multiplier (idle 16-core timing: ~10 s at scale 1)
 STRATA = [
     ("supported", 500, 9000),
     ("grammar", 700, 12000),
